@@ -94,6 +94,7 @@ let gc_line (w : ostring list) : bool =
   | _ -> false
 
 (* ---- string builder lines (same protocol as probes/sb_probe.c): sbnew <cap> | cstr <n> | chr *)
+let list_mode = ref false
 let sb_state : sbuf option ref = ref None
 let sb_k = ref 0
 let sb_answer (s : sbuf) =
@@ -107,7 +108,7 @@ let sb_line (w : ostring list) : bool =
      | SCrash -> sb_state := None; print_string "crash\n"
      | SLoop -> sb_state := None; print_string "loop\n") in
   match w with
-  | ["sbnew"; c] -> sb_k := 0; fin (SOk (sb_new fmtsb_params (n_of_int (int_of_string c)))); true
+  | ["sbnew"; c] -> list_mode := false; sb_k := 0; fin (SOk (sb_new fmtsb_params (n_of_int (int_of_string c)))); true
   | ["cstr"; m] ->
       (match !sb_state with
        | None -> print_string "skip\n"
@@ -119,6 +120,48 @@ let sb_line (w : ostring list) : bool =
        | None -> print_string "skip\n"
        | Some s -> let c = n_of_int (65 + !sb_k mod 26) in incr sb_k; fin (append_char fmtsb_params s c)); true
   | _ -> false
+
+(* ---- runtime list lines (same protocol as probes/list_probe.c); the engine name is ignored: one template *)
+let rl_state : rlist option ref = ref None
+let str_rl (s : rlist) =
+  let n = int_of_nat s.r_len in
+  let cs = List.map hex_of_n (take n s.r_data) in
+  Printf.sprintf " | len=%d cap=%d d=%s" n (int_of_nat s.r_cap)
+    (if n = 0 then "-" else if n <= 48 then String.concat "," cs
+     else "#" ^ fnv (String.concat "," cs) ^ " " ^ List.hd cs ^ ",..," ^ List.nth cs (n - 1))
+let rl_start (s : rlist) = list_mode := true; rl_state := Some s; print_string ("unit" ^ str_rl s ^ "\n")
+let rl_exec (o : lop) =
+  match !rl_state with
+  | None -> print_string "skip\n"
+  | Some s ->
+     let extra = ref (if rinvb s then "" else " RINV-BROKEN") in
+     let a = astep (rabs s) o in
+     (match rstep list_params s o with
+      | ROk_ (s', x) ->
+          (match a with
+           | AOk (l', x') -> if not (l' = rabs s' && x' = x) then extra := !extra ^ " ABS-MISMATCH"
+           | AExit -> extra := !extra ^ " ABS-MISMATCH"
+           | ANoSpec -> ());
+          rl_state := Some s';
+          print_string ((match x with RUnit -> "unit" | RVal v -> "val " ^ hex_of_n v | RNat n -> "nat " ^ string_of_int (int_of_nat n)
+                                     | RBool b -> if b then "bool 1" else "bool 0") ^ str_rl s' ^ !extra ^ "\n")
+      | RExit -> (match a with AExit -> () | _ -> extra := !extra ^ " ABS-MISMATCH"); rl_state := None; print_string ("exit" ^ !extra ^ "\n")
+      | RCrash_ -> rl_state := None; print_string ("crash" ^ !extra ^ "\n"))
+(* list operation lines share verbs with the dyn-array protocol (push/pop/get/set/len/clear): they are told apart by which kind of
+   history is open *)
+let rl_op (w : ostring list) : lop option =
+  match w with
+  | ["push"; v] -> Some (RPush (n_of_hex v))
+  | ["pop"] -> Some RPop
+  | ["ins"; i; v] -> Some (RInsert (z_of_dec i, n_of_hex v))
+  | ["rm"; i] -> Some (RRemove (z_of_dec i))
+  | ["set"; i; v] -> Some (RSet (z_of_dec i, n_of_hex v))
+  | ["get"; i] -> Some (RGet (z_of_dec i))
+  | ["clear"] -> Some RClear
+  | ["len"] -> Some RLength
+  | ["cap"] -> Some RCapacity
+  | ["empty"] -> Some RIsEmpty
+  | _ -> None
 
 (* one modelled operation on the current state: Ok (state', output, notes) or Stop (answer line) *)
 type o1 = Ok1 of dyn * out * string | Stop1 of string
@@ -160,12 +203,16 @@ let dyn_main () =
     match words line with
     | [] -> ()
     | w when gc_line w -> ()
+    | ["lnew"; _] -> rl_start (rl_new list_params)
+    | ["lcap"; _; c] -> rl_start (rl_with_capacity (nat_of_int (int_of_string c)))
+    | w when !list_mode && (match w with ["new"; _] | ["newcap"; _; _] | ["sbnew"; _] -> false | _ -> true) ->
+        (match rl_op w with Some o -> rl_exec o | None -> print_string "bad\n")
     | w when sb_line w -> ()
     | ["new"; k] -> let d = dyn_new rt_params (kind_of_code (int_of_string k)) in
-        st := Some d; print_string ("unit" ^ str_state d ^ "\n")
+        list_mode := false; st := Some d; print_string ("unit" ^ str_state d ^ "\n")
     | ["newcap"; k; c] ->
         (match dyn_new_cap rt_params (kind_of_code (int_of_string k)) (z_of_dec c) with
-         | ROk (d, _) -> st := Some d; print_string ("unit" ^ str_state d ^ "\n")
+         | ROk (d, _) -> list_mode := false; st := Some d; print_string ("unit" ^ str_state d ^ "\n")
          | RCrash -> st := None; print_string "crash\n"
          | _ -> st := None; print_string "oom\n")
     | w ->
